@@ -99,7 +99,10 @@ def run(ctx):
     validate(ctx, main)
     # millisecond offsets beyond 9.2e12 (int64 nanoseconds): validated separately so that a
     # rejection there (finding plus-ms-int64-overflow) does not hide the rest
-    validate(ctx, ctx.work + "/bigms.ndjson", key="plus-ms-int64-overflow")
+    # (own file extensions give the three traces distinct replay paths under replays/)
+    big = ctx.work + "/bigms.bigms_ndjson"
+    os.rename(ctx.work + "/bigms.ndjson", big)
+    validate(ctx, big, key="plus-ms-int64-overflow")
     for k in ("Valid", "Plus", "Diff", "Lit", "Parse"):
         ctx.cov["real_calls_" + k] = summ.get(k, 0)
     # 3. the same under local time zones with daylight saving at midnight / a skipped day
@@ -110,7 +113,7 @@ def run(ctx):
     else:
         if not th:
             zones = zones[:1] + [zones[1 + ctx.seed % (len(zones) - 1)]] if len(zones) > 1 else zones
-        tzfile = ctx.work + "/tz.ndjson"
+        tzfile = ctx.work + "/tz.tz_ndjson"
         with open(tzfile, "w") as f:
             for i, z in enumerate(zones):
                 part = "%s/tz-%d.ndjson" % (ctx.work, i)
